@@ -3,10 +3,12 @@ import os, json, struct, math
 import vf
 
 PROP = "C12"
-THEOREMS = ["cbor_roundtrip", "cbor_canonical", "cbor_decode_injective", "cbor_noncanonical_rejected", "cbor_decode_normal",
+THEOREMS = ["cbor_roundtrip", "cbor_canonical", "cbor_decode_injective", "cbor_enc_map_order_free", "cbor_noncanonical_rejected", "cbor_decode_normal",
             "cbor_enc_wf", "cbor_reject_trailing", "cbor_reject_tag", "cbor_reject_indefinite", "cbor_reject_nonminimal_head",
             "cbor_reject_f16_nan_payload", "cbor_reject_integral_float", "cbor_reject_wide_float64", "cbor_reject_wide_float32",
-            "narrow16_exact", "narrow32_exact", "cbor_decode_never_out_of_fuel"]
+            "narrow16_exact", "narrow32_exact", "cbor_decode_never_out_of_fuel",
+            "fmt_roundtrip", "fmt_canonical", "fmt_encoding_injective", "fmt_reject_trailing", "record_descriptors_wf",
+            "strand_fork_canonical"]
 PRE = ("From Coq Require Import List NArith ZArith.\nFrom Echo Require Import Base.Bytes Model.Cbor.\n"
        "Import ListNotations.\nOpen Scope N_scope.\n")
 
@@ -446,7 +448,7 @@ def model_line(case, val):
 
 def impl_comparable(line):
     """Strip oracle / statistics from a harness line."""
-    if line.startswith("abi "): return line.split(" oracle=")[0]
+    if line.startswith(("abi ", "rec ", "edict ")): return line.split(" oracle=")[0]
     if line.startswith("exh "): return line.split(" total=")[0]
     if line.startswith("f16tab "): return line.split(" narrow_bad=")[0]
     return line
@@ -461,12 +463,187 @@ def signature(o):
     """Stable signature of a failing oracle string."""
     kinds = []
     for part in o[5:].split(","):
-        if "int-below-i64" in part: kinds.append("abi:int-below-i64-encodes-but-does-not-decode")
+        if part.startswith("rec-accepted-noncanonical:"): kinds.append("rec:%s:accepted-noncanonical" % part.split(":", 1)[1])
+        elif part.startswith("rec-roundtrip:"): kinds.append("rec:%s:roundtrip" % part.split(":", 1)[1])
+        elif part.startswith("edict-"): kinds.append("edict:" + part[6:])
+        elif "int-below-i64" in part: kinds.append("abi:int-below-i64-encodes-but-does-not-decode")
         elif "integral-float-outside-int-range" in part: kinds.append("abi:integral-float-outside-int-range-truncated")
         elif "f16-nan-payload" in part: kinds.append("abi:f16-nan-payload-accepted")
         elif part == "rt-reencode-differs": continue
         else: kinds.append("abi:" + part)
     return kinds or ["abi:" + o]
+
+# ----------------------------------------------------------------------------- record codecs: generation-side descriptors (not trusted)
+# ("u", w) | ("raw", n) | ("const", bytes) | ("opt", f) | ("bytes", w) | ("vec", w, f) | ("seq", [f..]) | ("enum", {code: f})
+_H = ("raw", 32); _U64 = ("u", 8); _U32 = ("u", 4); _U16 = ("u", 2)
+_OPTH = ("opt", _H); _B64 = ("bytes", 8); _WHK = ("seq", [_H, _H]); _ADR = ("seq", [_H, _H])
+_CTRR = ("seq", [_H, _U64, _U64, _H, _H, _H, _H])
+def _codes(n): return ("enum", {c: ("seq", []) for c in range(1, n + 1)})
+_BMR = ("enum", {1: ("seq", [_H]), 2: ("seq", [_H, _ADR])})
+_BEV = ("enum", {1: ("seq", [_H, _ADR]), 2: ("seq", [_BMR, _U64]), 3: ("seq", [_H]), 4: ("seq", [_H, _H])})
+RECORDS = {
+    1: ("SubmissionAcceptanceRecord", ("seq", [_H, _H, _OPTH, _H])),
+    2: ("WalSubmissionEnvelopeRecord", ("seq", [_H, _H, _U64, _WHK, _B64])),
+    3: ("RetainedMaterialRecord", ("seq", [_H, _H, _codes(7), _codes(6)])),
+    4: ("ReadingRefRecord", ("seq", [_H, _H, _H, _H, _codes(6)])),
+    5: ("CheckpointRecord", ("seq", [_H, _U64, _H, _H, _H, _H, _U16, _H])),
+    6: ("CheckpointPublicationRecord", ("seq", [_H, _H])),
+    7: ("MaterializationIntentRecord", ("seq", [_H] * 5)),
+    8: ("MaterializationObservationRecord", ("seq", [_H] * 3)),
+    9: ("StrandDropRecord", ("seq", [_H, _H, _H, _U64, _H, _H, _OPTH])),
+    10: ("TopologyBraidEventRecord", ("seq", [_H, _H, _U64, _BEV, _codes(3), _H, _H, _OPTH])),
+    11: ("BraidShellRetentionRecord", ("seq", [_H] * 5 + [_codes(4), _H, _H, _OPTH])),
+    12: ("SuffixImportRecord", ("seq", [_H] * 7 + [_codes(4), _H, _H, _H])),
+    13: ("TickReceiptRecord", ("seq", [("const", b"ETICK002"), _CTRR, _codes(3)])),
+    14: ("StrandForkRecord", ("seq", [_H, _H, _H, _U64, _H, _H, _H, ("vec", 8, _WHK), _H, _H, _OPTH])),
+    15: ("EintEnvelope", ("seq", [("const", b"EINT"), _U32, ("bytes", 4)])),
+}
+MODELLED_RECORDS = set(RECORDS)
+ORACLE_ONLY_RECORDS = {16: "WalReceiptCorrelationRecord", 17: "IngressEnvelopeRetained(v2,v1-legacy)", 18: "WalRuntimeStateDeltaRecord",
+                       19: "MbusFramesV1", 20: "MbusPacketsV2", 21: "EintLog"}
+
+
+def _rb(rng, n):
+    r = rng.random()
+    if r < 0.15: return bytes(n)
+    if r < 0.25: return b"\xff" * n
+    if r < 0.35: return bytes([rng.getrandbits(8)]) * n
+    return bytes(rng.getrandbits(8) for _ in range(n))
+
+
+def gen_fmt(rng, f, sab=None):
+    """Random encoding of descriptor f; `sab` (a mutable list) requests one structural corruption."""
+    k = f[0]
+    def hit():
+        if sab and sab[0] and rng.random() < 0.25:
+            sab[0] = False; return True
+        return False
+    if k == "u":
+        v = rng.choice([0, 1, 255, 256, 2 ** (8 * f[1]) - 1, rng.getrandbits(8 * f[1])])
+        return (v & (2 ** (8 * f[1]) - 1)).to_bytes(f[1], "little")
+    if k == "raw": return _rb(rng, f[1])
+    if k == "const":
+        if hit():
+            b = bytearray(f[1]); b[rng.randrange(len(b))] ^= 1 << rng.randrange(8); return bytes(b)
+        return f[1]
+    if k == "opt":
+        if hit(): return bytes([rng.choice([2, 3, 255])]) + gen_fmt(rng, f[1], sab)
+        return b"\x00" if rng.random() < 0.4 else b"\x01" + gen_fmt(rng, f[1], sab)
+    if k == "bytes":
+        n = rng.choice([0, 1, 2, 7, 32, 100, rng.randint(0, 300)])
+        data = _rb(rng, n)
+        if hit(): n = max(0, n + rng.choice([-1, 1, 2 ** 32, 2 ** (8 * f[1]) - 1 - n]))
+        return (n & (2 ** (8 * f[1]) - 1)).to_bytes(f[1], "little") + data
+    if k == "vec":
+        n = rng.choice([0, 1, 2, 3, 5])
+        items = [gen_fmt(rng, f[2], sab) for _ in range(n)]
+        mode = rng.random()
+        if mode < 0.5: items.sort()
+        elif mode < 0.6 and items: items.append(rng.choice(items))
+        cnt = len(items)
+        if hit(): cnt = max(0, cnt + rng.choice([-1, 1, 2 ** 40]))
+        return (cnt & (2 ** (8 * f[1]) - 1)).to_bytes(f[1], "little") + b"".join(items)
+    if k == "seq": return b"".join(gen_fmt(rng, x, sab) for x in f[1])
+    if k == "enum":
+        if hit(): return bytes([rng.choice([0, max(f[1]) + 1, 255])])
+        c = rng.choice(list(f[1]))
+        return bytes([c]) + gen_fmt(rng, f[1][c], sab)
+    raise ValueError(k)
+
+
+def _ctrr(rng): return gen_fmt(rng, _CTRR)
+def _ctrr_key(b):
+    return (b[0:32], int.from_bytes(b[32:40], "little"), int.from_bytes(b[40:48], "little"), b[48:80], b[80:112], b[112:144], b[144:176])
+
+
+def gen_irregular(rng, rid):
+    le = lambda n, w: (n & (2 ** (8 * w) - 1)).to_bytes(w, "little")
+    if rid == 16:
+        parents = [_ctrr(rng) for _ in range(rng.choice([0, 0, 1, 2, 3, 4]))]
+        if rng.random() < 0.3 and parents:      # shared prefix so that the tick fields decide the order
+            base = parents[0]; parents += [base[:32] + le(rng.getrandbits(64), 8) + base[40:] for _ in range(2)]
+        mode = rng.random()
+        if mode < 0.7: parents = sorted(set(parents), key=_ctrr_key)
+        elif mode < 0.8 and parents: parents.append(parents[0])
+        body = b"ERCOR002" + _ctrr(rng)
+        if parents or rng.random() < 0.1: body += le(len(parents), 8) + b"".join(parents)
+        return body
+    if rid == 17:
+        magic = b"EINGR002" if rng.random() < 0.85 else b"EINGR001"
+        t = rng.choice([1, 2, 3, 3, 1, 4])
+        if t == 1: tgt = b"\x01" + _rb(rng, 32)
+        elif t == 2:
+            name = rng.choice([b"", b"inbox", "bo\u00eete".encode(), b"\xff\xfe", b"a" * 40])
+            tgt = b"\x02" + _rb(rng, 32) + le(len(name), 8) + name
+        elif t == 3: tgt = b"\x03" + _rb(rng, 64)
+        else: tgt = bytes([t]) + _rb(rng, 32)
+        ps = [bytes([rng.choice([1, 1, 2])]) + _ctrr(rng) for _ in range(rng.choice([0, 0, 1, 2, 3]))]
+        if magic == b"EINGR001": ps = [b"\x01" + _rb(rng, 32) for _ in range(rng.choice([0, 0, 0, 1]))]
+        mode = rng.random()
+        if mode < 0.75: ps = sorted(set(ps), key=lambda p: (p[0], _ctrr_key(p[1:])) if len(p) == 177 else (p[0], p[1:]))
+        elif mode < 0.85 and ps: ps.append(ps[0])
+        data = _rb(rng, rng.choice([0, 1, 16, 100]))
+        pay = bytes([rng.choice([1, 1, 1, 1, 2])]) + _rb(rng, 32) + le(len(data), 8) + data
+        return magic + tgt + le(len(ps), 8) + b"".join(ps) + pay
+    if rid == 18:
+        return b"ERSD0001" + _rb(rng, 32) + bytes([rng.choice([0, 0, 1, 2, 3])]) + le(rng.choice([0, 5, 2 ** 40]), 8) + _rb(rng, rng.choice([0, 5, 60]))
+    if rid == 19:
+        out = b""
+        for _ in range(rng.choice([0, 1, 1, 2, 3])):
+            data = _rb(rng, rng.choice([0, 1, 8, 50]))
+            res = b"\x00\x00" if rng.random() < 0.8 else _rb(rng, 2)
+            out += b"MBUS" + le(rng.choice([1, 1, 1, 2]), 2) + res + le(32 + len(data), 4) + _rb(rng, 32) + data
+        return out
+    if rid == 20:
+        out = b""
+        for _ in range(rng.choice([0, 1, 1, 2])):
+            ents = b""; n = rng.choice([0, 1, 2, 3])
+            for _ in range(n):
+                v = _rb(rng, rng.choice([0, 1, 20])); ents += _rb(rng, 64) + le(len(v), 4) + v
+            slack = b"" if rng.random() < 0.9 else _rb(rng, 3)
+            payload = _rb(rng, 128) + le(rng.getrandbits(64), 8) + _rb(rng, 32) + le(n, 4) + ents + slack
+            res = b"\x00\x00" if rng.random() < 0.8 else _rb(rng, 2)
+            out += b"MBUS" + le(rng.choice([2, 2, 2, 1]), 2) + res + le(len(payload), 4) + payload
+        return out
+    if rid == 21:
+        out = b"ELOG" + le(rng.choice([1, 1, 1, 2]), 2) + le(rng.choice([0, 0, 0, 1]), 2) + _rb(rng, 32) + (bytes(8) if rng.random() < 0.9 else _rb(rng, 8))
+        for _ in range(rng.choice([0, 1, 2, 3])):
+            f = _rb(rng, rng.choice([0, 1, 12, 80])); out += le(len(f), 4) + f
+        if rng.random() < 0.15: out += _rb(rng, rng.randint(1, 3))
+        return out
+    raise ValueError(rid)
+
+
+def gen_record_cases(rng, n_per):
+    out = []
+    for rid in sorted(RECORDS) + sorted(ORACLE_ONLY_RECORDS):
+        for i in range(n_per):
+            if rid in RECORDS:
+                sab = [i % 3 == 2]
+                b = gen_fmt(rng, RECORDS[rid][1], sab)
+            else:
+                b = gen_irregular(rng, rid)
+            m = i % 6
+            if m == 3: b = b[:rng.randrange(len(b) + 1)]
+            elif m == 4: b = b + _rb(rng, rng.randint(1, 3))
+            elif m == 5: b = mutate(rng, b)
+            if len(b) > 4000: continue
+            out.append("rec=%d b=%s" % (rid, b.hex() or "-"))
+    # F8 witness (the theorem's [fork_witness]) and EINT edge cases
+    out.append("rec=14 b=" + (bytes(96) + (7).to_bytes(8, "little") + bytes(96) + (2).to_bytes(8, "little") + b"\x01" * 64 + bytes(64) + bytes(64) + b"\x00").hex())
+    for op in (0, 1, 0xfffffffd, 0xfffffffe, 0xffffffff):
+        out.append("rec=15 b=" + (b"EINT" + op.to_bytes(4, "little") + (3).to_bytes(4, "little") + b"abc").hex())
+    out.append("rec=15 b=" + (b"EINT" + bytes(4) + (4).to_bytes(4, "little") + b"abc").hex())
+    return out
+
+
+def strip_floats(v, rng):
+    k = v[0]
+    if k == "f": return ("i", rng.choice([0, 1, -1, 24, 2 ** 64 - 1, -2 ** 64]))
+    if k == "g": return strip_floats(v[2], rng)
+    if k == "a": return ("a", [strip_floats(x, rng) for x in v[1]])
+    if k == "m": return ("m", [(strip_floats(a, rng), strip_floats(b, rng)) for a, b in v[1]])
+    return v
 
 # ----------------------------------------------------------------------------- extracted model driver
 
@@ -475,7 +652,8 @@ def build_driver():
     import hashlib, shutil
     src = os.path.join(vf.ROOT, "props", "c12_driver.ml")
     vo = os.path.join(vf.COQ, "Model", "Cbor.vo")
-    h = hashlib.sha1(open(src, "rb").read() + open(vo, "rb").read() + open(os.path.join(vf.COQ, "Base", "Bytes.vo"), "rb").read()).hexdigest()[:12]
+    h = hashlib.sha1(open(src, "rb").read() + open(vo, "rb").read() + open(os.path.join(vf.COQ, "Base", "Bytes.vo"), "rb").read()
+                     + open(os.path.join(vf.COQ, "Model", "Fmt.vo"), "rb").read()).hexdigest()[:12]
     d = os.path.join(vf.WORK, "c12-ocaml-" + h)
     exe = os.path.join(d, "driver")
     if os.path.exists(exe):
@@ -484,9 +662,10 @@ def build_driver():
     shutil.rmtree(tmp, ignore_errors=True)
     os.makedirs(tmp)
     open(os.path.join(tmp, "Extract.v"), "w").write(
-        "From Coq Require Import Extraction ExtrOcamlBasic.\nFrom Echo Require Import Base.Bytes Model.Cbor.\n"
+        "From Coq Require Import Extraction ExtrOcamlBasic.\nFrom Echo Require Import Base.Bytes Model.Cbor Model.Fmt.\n"
         "Extraction Language OCaml.\n"
-        'Extraction "model.ml" run_value run_bytes code_of widen16 widen32 narrow16 narrow32 f64_to_int f64_is_nan widen16_table_fp.\n')
+        'Extraction "model.ml" run_value run_bytes code_of widen16 widen32 narrow16 narrow32 f64_to_int f64_is_nan '
+        'widen16_table_fp enc decode show run_record.\n')
     rc, out = vf.sh(["coqc", "-noglob", "-Q", vf.COQ, "Echo", "Extract.v"], cwd=tmp, timeout=300)
     if rc: raise vf.Broken("extraction failed: " + out[-1500:])
     shutil.copy(src, os.path.join(tmp, "driver.ml"))
@@ -526,13 +705,35 @@ def run(tier, seed, replay=None):
     r = vf.Run(PROP, tier, seed, "proof")
     rng = r.rng
     r.assumptions = [
-        "Coq 8.16.1 kernel (coqc, vm_compute for witnesses and finite sweeps)",
-        "model = coq/Model/Cbor.v (ABI canonical CBOR value codec on bit patterns); tie = python generator + harness c12.rs + "
-        "vm_compute evaluation of the model on the same cases",
+        "Coq 8.16.1 kernel (coqc; vm_compute for witnesses, the 2^16 half-precision sweep and descriptor well-formedness); "
+        "no axioms (Print Assumptions: closed under the global context for every pinned theorem)",
+        "models = coq/Model/Cbor.v (ABI canonical CBOR value codec on bit patterns, UTF-8 validity as an executable predicate) and "
+        "coq/Model/Fmt.v (format descriptors for the fixed little-endian records, hand-transcribed from causal_wal.rs / lib.rs)",
+        "round-then-compare float narrowing (half::f16::from_f64, `as f32`) is modelled as exact representability; validated "
+        "against the half crate for all 2^16 halves and against Rust casts on sampled f32/f64 patterns each run",
+        "the model is executed through Coq extraction (ExtrOcamlBasic only) + props/c12_driver.ml; a sample of cases is re-evaluated "
+        "by the kernel (vm_compute) each run and must agree with the extracted model",
+        "Vec::with_capacity aborts on huge declared lengths are C13's subject: byte inputs whose reachable array/map head declares "
+        "more than 2^16 items are skipped (counted in skipped_alloc_guard)",
+        "exercised by the implementation-side oracle only, not modelled: WalReceiptCorrelationRecord, retained IngressEnvelope v2 "
+        "(+ v1 legacy upgrade), WalRuntimeStateDeltaRecord/provenance_codec, MBUS frames v1/v2, ELOG; Edict canonical CBOR is compared "
+        "with the float-free fragment of the ABI model (its depth/node budgets are not modelled); serde DTO layer (kernel_port), "
+        "scene CBOR and columnar snapshots are outside this check",
     ]
-    r.cov["trusted_base"] = ["coqc 8.16.1 kernel + vm_compute", "python generator/renderer props/c12.py",
-                             "harness c12.rs (value text syntax, error-class mapping, fingerprint)"]
+    r.cov["trusted_base"] = ["coqc 8.16.1 kernel + vm_compute", "Coq extraction to OCaml (Require Extraction ExtrOcamlBasic; no Extract Constant/"
+                             "Inductive of our own) + ocamlfind ocamlopt 4.13.1 + props/c12_driver.ml (value text parser, N<->hex conversions)",
+                             "python generator/renderer props/c12.py",
+                             "harness c12.rs (value text syntax, error-class mapping, fingerprint, alloc guard, semantic-equality oracle)"]
     r.proof_phase(THEOREMS)
+    if tier == "thorough":
+        import time as _t
+        t1 = _t.time()
+        try:
+            rc, out = vf.sh(["coqchk", "-o", "-silent", "-Q", vf.COQ, "Echo", "Echo.Props.C12"], timeout=1500)
+            r.phase("coqchk", ok=(rc == 0), seconds=round(_t.time() - t1, 1), tail=out[-400:])
+            if rc: r.is_broken("coqchk", out[-1500:])
+        except Exception as e:
+            r.is_broken("coqchk", repr(e))
     try:
         bins = vf.cargo_build(["c12"])
         r.phase("P3_build", ok=True)
@@ -564,8 +765,10 @@ def run(tier, seed, replay=None):
         for i in range(nb):
             v = gen_value(rng, rng.choice([0, 1, 1, 2, 2, 3]), allow_defect=False, allow_bad=False)
             mode = i % 5
-            if mode in (0, 1, 2):
+            if mode in (0, 1):
                 sab, b = sabotaged(rng, v)
+            elif mode == 2:
+                sab, b = "valid", py_enc(gen_value(rng, rng.choice([1, 2, 3, 4]), allow_bad=False), rng)
             elif mode == 3:
                 sab, b = "mutate", mutate(rng, py_enc(v, rng))
             else:
@@ -576,6 +779,29 @@ def run(tier, seed, replay=None):
             bcases.append("b=" + (b.hex() or "-"))
         cases += bcases
         r.cov["byte_case_kinds"] = dict(sorted(sabs.items()))
+        # Edict canonical CBOR: same byte strings, and float-free values
+        ecases = ["eb=" + c[2:] for c in bcases[::2]]
+        ecases += ["ev=" + show(strip_floats(v, rng)) for v in vals[:(400 if quick else 4000)]]
+        ecases += ["ev=" + show(v) for v in vals[:(60 if quick else 600)]]
+        cases += ecases
+        r.cov["edict_cases"] = len(ecases)
+        # fixed little-endian records / frames
+        rcases = gen_record_cases(rng, 40 if quick else 400)
+        # WalRuntimeStateDeltaRecord: valid payloads come from the harness (public constructors), then mutations
+        try:
+            gp = vf.write_cases("c12-gen", ["gen=18 seed=%d" % (seed % 1000 + i) for i in range(6 if quick else 40)])
+            rc, gout = vf.run_bin(bins["c12"], gp, timeout=300)
+            seeds18 = [bytes.fromhex(l.split()[1]) for l in gout.splitlines() if l.startswith("gen ") and l != "gen E"]
+        except Exception:
+            seeds18 = []
+        for sb in seeds18:
+            rcases.append("rec=18 b=" + sb.hex())
+            for _ in range(6 if quick else 20):
+                mb = mutate(rng, sb) if rng.random() < 0.7 else sb[:rng.randrange(len(sb))]
+                rcases.append("rec=18 b=" + (mb.hex() or "-"))
+        r.cov["state_delta_seed_payloads"] = len(seeds18)
+        cases += rcases
+        r.cov["record_cases"] = len(rcases)
         # float primitives, utf8 via text heads, exhaustive universes
         fls = [gen_float(rng, True) for _ in range(2000 if quick else 20000)] + FLOAT_SPECIAL + FLOAT_OUTSIDE + FLOAT_HUGE
         for i in range(0, len(fls), 100):
@@ -617,12 +843,16 @@ def run(tier, seed, replay=None):
         exe = build_driver()
         r.phase("model_build", seconds=round(time.time() - t0, 1)); t0 = time.time()
         model = run_model(exe, kcases)
+        # codecs exercised by the implementation-side oracle only (no model): nothing to compare
+        for i, c in enumerate(kcases):
+            if c.startswith("rec=") and int(c.split()[0][4:]) not in MODELLED_RECORDS:
+                model[i] = impl_comparable(kimpl[i])
         r.phase("model_run_extracted", seconds=round(time.time() - t0, 1), cases=len(kcases)); t0 = time.time()
         # kernel cross-check of the extraction: a sample of small cases through coqc/vm_compute
-        small = [i for i, c in enumerate(kcases) if len(c) < 160 and not c.startswith("exh") and not c.startswith("f16tab")]
-        pick = sorted(rng.sample(small, min(len(small), 48 if quick else 400)))
+        small = [i for i, c in enumerate(kcases) if len(c) < 160 and c[:2] in ("v=", "b=")]
+        pick = sorted(rng.sample(small, min(len(small), 24 if quick else 300)))
         pick += [i for i, c in enumerate(kcases) if c in ("exh=0 p=-", "exh=1 p=-", "exh=1 p=f9", "exh=1 p=f97e")]
-        kvals = vf.coq_eval("c12", PRE, [term_of(kcases[i]) for i in pick], timeout=900)
+        kvals = vf.coq_eval("c12", PRE, [term_of(kcases[i]) for i in pick], shards=(2 if quick else 8), timeout=900)
         kbad = [(kcases[i], model[i], model_line(kcases[i], v)) for i, v in zip(pick, kvals) if model_line(kcases[i], v) != model[i]]
         r.cov["kernel_vm_compute_crosschecked"] = len(pick)
         for c, a, b in kbad[:2]:
@@ -692,9 +922,51 @@ def run(tier, seed, replay=None):
     r.cov["value_depth_histogram"] = dict(sorted(dh.items()))
     r.cov["exhaustive_model_vs_impl"] = {"len0": 1, "len1": 256, "len2": 65536,
                                          "len3": 65536 * sum(1 for c in kcases if c.startswith("exh=2 p=") and c != "exh=2 p=-")}
+    rec_hist = {}
+    for c, l in zip(kcases, kimpl):
+        if c.startswith("rec="):
+            rid = int(c.split()[0][4:]); nm = (RECORDS.get(rid) or (ORACLE_ONLY_RECORDS.get(rid),))[0]
+            h = rec_hist.setdefault(nm, {"cases": 0, "accepted": 0, "modelled": rid in MODELLED_RECORDS})
+            h["cases"] += 1; h["accepted"] += l.startswith("rec ok")
+    r.cov["record_codecs"] = rec_hist
+    r.cov["edict_accepted"] = sum(1 for c, l in zip(kcases, kimpl) if c[:3] in ("eb=", "ev=") and "=E " not in l)
+    r.cov["exercised_not_modelled"] = sorted(ORACLE_ONLY_RECORDS.values()) + [
+        "Edict canonical CBOR depth/node budgets (the codec itself is compared with the float-free fragment of the ABI model)"]
     r.cov["traces_validated_against_impl"] = len(kcases) - len(bad)
     r.cov["oracle_failures"] = nfail
     r.cov["samples"] = [c[:300] for c in (vcs[:2] + bcs[:2])]
     r.phase("P4_correspondence", cases=len(kcases), differing=len(bad))
     r.phase("P5_oracle", failing=nfail)
     return r.finish()
+
+
+MANIFEST = {
+    "category": "proof",
+    "text": ("Coq theorems (no axioms, 24 pinned) over an executable, byte-exact model of the ABI canonical CBOR codec "
+             "(echo-wasm-abi/src/canonical.rs: value tree, integers in [-2^64,2^64), floats as bit patterns with exact f16/f32/f64 "
+             "width selection and the integral-float-to-integer rule, UTF-8 validity, maps sorted by encoded key bytes): "
+             "cbor_roundtrip (decode(encode v) = norm v for every well-formed value), cbor_canonical (for EVERY byte string: accepted "
+             "=> re-encodes to exactly those bytes), decode injectivity, encoding independent of map entry order, decoder output is "
+             "in normal form, every other spelling of a value is rejected, and rejection lemmas per class (trailing bytes, tags, "
+             "indefinite lengths, non-minimal heads, wide floats, integral floats, NaN payloads); plus generic fmt_roundtrip / "
+             "fmt_canonical / injectivity / trailing-byte rejection proved once by induction on format descriptors and instantiated "
+             "for 14 hand-transcribed WAL record descriptors and the EINT envelope (StrandForkRecord with its canonical-order "
+             "check). The models are tied to /repo by running the Coq-extracted model and the real crates on the same cases: "
+             "generated values (boundary integers, every float class, deep/wide maps), sabotaged and mutated encodings, ALL byte "
+             "strings of length <= 2 and the 3-byte universe (48 first bytes in quick, all 256 in thorough; the whole 16.8M-string "
+             "universe is additionally checked by the implementation-side oracle every run), float narrowing against the half crate "
+             "for all 2^16 halves and sampled f32/f64, descriptor-generated and mutated record payloads; the harness independently "
+             "checks the property itself (semantic round trip, accepted => canonical, writer determinism) for these codecs and for "
+             "Edict canonical CBOR, retained ingress envelopes, receipt-correlation and runtime-state-delta records, MBUS frames "
+             "v1/v2 and ELOG."),
+    "note": ("Trusted: Coq kernel + vm_compute; Coq extraction (ExtrOcamlBasic) + OCaml driver props/c12_driver.ml (cross-checked against "
+             "kernel vm_compute on a sample each run); python generator; harness c12.rs. Modelled rather than verified: canonical.rs and "
+             "the record layouts as Gallina functions/descriptors; round-then-compare float narrowing as exact representability "
+             "(validated against the half crate / Rust casts each run). Exercised by the implementation-side oracle only (not modelled): "
+             "WalReceiptCorrelationRecord, retained IngressEnvelope v2 (+v1 legacy upgrade), WalRuntimeStateDeltaRecord/provenance_codec, "
+             "MBUS frames v1/v2 (round trip + writer determinism only, as the property scopes them), ELOG; Edict canonical CBOR is "
+             "compared with the float-free fragment of the ABI model (depth/node budgets not modelled). Outside: serde DTO layer "
+             "(kernel_port), scene CBOR, columnar snapshots, Vec::with_capacity aborts on huge declared lengths (C13). Found and fixed "
+             "while building: f16 NaN payloads accepted (f8fd569), integers below i64::MIN not decodable (35fff59), integral floats "
+             ">= 2^64 truncated by the encoder (50eacdd), StrandForkRecord decode normalising writer-head order."),
+}
